@@ -29,8 +29,8 @@ CHECKS = {
                 text="ScopedRegistry.__init__/__call__/has/set/clear are proved against the map view (the current scope's entry is returned or created exactly once, also when another thread wins the race while the factory runs; every other scope's entry and the key order untouched); ThreadLocalRegistry.__init__/__call__/has/set/clear against the current thread's slot (may-be-absent attribute); scoped_session.__init__ (a scopefunc gives a ScopedRegistry, none gives thread-local storage) and remove() for both registry kinds (the current Session closed and discarded, no other Session touched, none created). Bounded complement: real threads - sequential short-lived threads with recycled idents, every interleaving of call,call,remove,call over 2 threads and a prefix over 3, thread and scopefunc scopes.",
                 note="scopefunc pure within a call; interference only at the factory call (dict operations atomic in CPython: assumed); threading.local semantics trusted; Session.close abstract (ghost flag); scoped_session.__call__(**kw) and proxy methods bounded only"),
     "C54": dict(level="proof", technique=PROOF_TECH, design="DESIGN.md §5 C54",
-                text="every OrderedSet method and operator, unique_list and IdentitySet (IdentitySet operand) is proved from the pure-Python source against 'set semantics with first-insertion order' (views via the spec functions addall/filt), representation invariants and frames included; the two known defects are reported as KNOWN-FINDING with every input outside their class proved. Bounded complement: pure and compiled builds against reference models.",
-                note="argument kinds are a case split (list with duplicates / set / IdentitySet); inductive lemmas filt_cong, addall_cat, filt_snoc assumed (Lean status in lemmas/); immutabledict/LRUCache/merge_lists_w_ordering are bounded only; the .so cannot be rebuilt here"),
+                text="every OrderedSet method and operator, unique_list and IdentitySet (IdentitySet operand) is proved from the pure-Python source against 'set semantics with first-insertion order' (views via the spec functions addall/filt), representation invariants and frames included; the two known defects are reported as KNOWN-FINDING with every input outside their class proved. immutabledict: _union_other (behind union / merge_with) returns an immutabledict holding, for every key, the value of the last argument that has it (else self's), modifies nothing, and every mutator refuses with TypeError. LRUCache: get/[]/[]=/del and _manage_size (lock given back on every exit, size bound, LRU retention). Bounded complement: pure and compiled builds against reference models.",
+                note="argument kinds are a case split (list with duplicates / set / IdentitySet); inductive lemmas filt_cong, addall_cat, filt_snoc assumed (Lean status in lemmas/); merge_lists_w_ordering and the compiled builds are bounded only; the .so cannot be rebuilt here"),
     "C10": dict(level="proof", technique=PROOF_TECH, design="DESIGN.md §5 C10",
                 text="the three cursor fetch strategies are proved: CursorFetchStrategy (rows pass through from the DBAPI cursor unchanged, in order), FullyBufferedCursorFetchStrategy (fetchone/fetchmany/fetchall deliver a prefix of the buffer and leave exactly the rest; an empty batch soft-closes) and BufferedRowCursorFetchStrategy: _buffer_rows / fetchone / fetchmany / fetchall are proved against the view total = buffer ++ rows left in the cursor: each call returns a prefix of total and leaves exactly the rest, _buffer_rows never loses a row and is only called on an empty buffer, fetchmany(0) is never sent to the driver. Bounded complement: all Result API operation sequences against a list model.",
                 note="assumed PEP-249 cursor contract; handle_exception NoReturn; _soft_close clears the buffer; the Result API classes are bounded only"),
